@@ -622,7 +622,7 @@ Lemma kstep_spec P fc cs0 chunks k inp ocap dir :
   | None => ko_err o = Some KdstSize_tooSmall \/ ko_err o = Some Kstability
   | Some r =>
       exists cs1 chunks1 chunks2 taken rest capleft,
-        ((cs1 = cs0 /\ chunks1 = chunks) \/
+        ((cs1 = cs0 /\ chunks1 = chunks /\ (k_stage k = KInit -> chunks2 = chunks /\ k_stage (ko_k o) = KInit)) \/
          (k_stage k = KInit /\ chunks1 = [] /\ exists pl, cs1 = cs_begin (k_cs k) fc pl)) /\
         SI P cs1 chunks2 (ko_k o) /\
         (exists more, chunks2 = chunks1 ++ more /\ Work more) /\
@@ -649,7 +649,7 @@ Proof.
     assert (Hdir : dir = DirContinue) by (destruct dir; try discriminate; reflexivity).
     pose proof (ki_init _ _ _ _ K Est) as [Hop Hip].
     exists cs0, chunks, chunks, (k_held k ++ inp), [], ocap.
-    split; [left; split; reflexivity|].
+    split; [left; split; [reflexivity|split; [reflexivity|intros _; split; [reflexivity|ksimp; exact Est]]]|].
     split; [|split; [exists []; rewrite app_nil_r; split; [reflexivity|left; reflexivity]|]].
     + constructor; ksimp; try congruence.
       destruct K. constructor; ksimp; ki_close.
@@ -663,7 +663,7 @@ Proof.
                | KInit => k_set_expect (k_init CS cs_begin P fc (if isEnd then total else fc_pledge fc) k) ocap
                | _ => k end).
     assert (H0 : exists cs1 chunks1,
-               ((cs1 = cs0 /\ chunks1 = chunks) \/ (k_stage k = KInit /\ chunks1 = [] /\ exists pl, cs1 = cs_begin (k_cs k) fc pl)) /\
+               ((cs1 = cs0 /\ chunks1 = chunks /\ k_stage k <> KInit) \/ (k_stage k = KInit /\ chunks1 = [] /\ exists pl, cs1 = cs_begin (k_cs k) fc pl)) /\
                KI P cs1 chunks1 k0 /\ Strict P k0 /\ k_stage k0 <> KInit /\ k_held k0 = k_held k /\
                k_inPend k0 = k_inPend k /\ k_outPend k0 = k_outPend k /\
                (k_stage k0 = KFlush -> k_held k = [])).
@@ -675,9 +675,9 @@ Proof.
         split; [|split; [|split; [|split; [|split; [|split]]]]]; ksimp; try congruence.
         + destruct Ki. constructor; ksimp; ki_close.
         + unfold Strict in *. ksimp. exact Si.
-      - exists cs0, chunks. split; [left; split; reflexivity|].
+      - exists cs0, chunks. split; [left; split; [reflexivity|split; [reflexivity|congruence]]|].
         split; [exact K|split; [apply HS; congruence|split; [congruence|repeat split; auto; intros; congruence]]].
-      - exists cs0, chunks. split; [left; split; reflexivity|].
+      - exists cs0, chunks. split; [left; split; [reflexivity|split; [reflexivity|congruence]]|].
         split; [exact K|split; [apply HS; congruence|split; [congruence|repeat split; auto]]].
         intros _. apply Hfl. reflexivity. }
     destruct H0 as (cs1 & chunks1 & Hfr & K0 & S0 & Hst0 & Hh0 & Hip0 & Hop0 & Hfh0).
@@ -707,7 +707,7 @@ Proof.
       destruct (app_suffix_split _ _ _ _ Hconv Glen) as [Hrest Hpre].
       pose proof (ki_out _ _ _ _ K2) as Ho2.
       exists cs1, chunks1, c2, (tk (lenN I - lenN (g_in g')) I), (g_in g'), (g_ocap g').
-      split; [exact Hfr|].
+      split; [destruct Hfr as [(Ha & Hb & Hc)|Hfr]; [left; split; [exact Ha|split; [exact Hb|intros E; congruence]]|right; exact Hfr]|].
       split; [|split; [exists more; split; [exact Gext|exact Gw]|]].
       * (* SI of the new state *)
         constructor; ksimp.
@@ -731,5 +731,222 @@ Proof.
     + cbn [ko_ret ko_err]. left. rewrite HL. reflexivity.
 Qed.
 
+
+(* ---------- C10: progress, flush completion, end completion (per call, from any reachable state) ---------- *)
+Lemma SI_new P cs : SI P cs [] (k_new cs).
+Proof.
+  constructor; unfold k_new; ksimp; try congruence; try reflexivity.
+  - constructor; ksimp; ki_close.
+    all: try (destruct (kp_stableIn P); [reflexivity|change (lenN (@nil N)) with 0; split; lia]).
+    all: try (intros; discriminate).
+    all: try (intros c H; destruct H; fail).
+    all: try (intros _ c H; destruct H; fail).
+Qed.
+
+(* a call that is given input and output room consumes input, or produces output, or completes the frame *)
+Theorem cstream_progress P fc cs0 chunks k inp ocap dir r :
+  SI P cs0 chunks k -> 1 <= fc_maxBlock fc -> inp <> [] -> 0 < ocap ->
+  let o := kstep P fc k inp ocap dir in
+  ko_ret o = Some r ->
+  (0 < ko_consumed o)%Z \/ ko_out o <> [] \/ (k_stage (ko_k o) = KInit /\ k_frameEnded (ko_k o) = true).
+Proof.
+  intros S Hmb Hinp Hcap o Hret. pose proof (kstep_spec P fc cs0 chunks k inp ocap dir S Hmb) as H.
+  cbv zeta in H. fold o in H. rewrite Hret in H.
+  destruct H as (cs1 & c1 & c2 & taken & rest & capleft & _ & _ & _ & Hsplit & Hcons & _ & _ & Hout & _ & Hstop).
+  assert (Hall : rest = [] -> (0 < ko_consumed o)%Z).
+  { intros ->. rewrite app_nil_r in Hsplit. rewrite Hcons, <- Hsplit, lenN_app.
+    assert (lenN inp <> 0) by (intros Z; apply Hinp, lenN_zero_nil, Z). lia. }
+  destruct Hstop as [H1 H2 H3|H1 H2 H3 H4|H1 H2 H3 H4|H1 H2 H3 H4 H5 H6|H1 H2 H3 H4].
+  - right. left. intros E. rewrite E in Hout. cbn in Hout. lia.
+  - right. right. split; assumption.
+  - left. apply Hall. exact H3.
+  - left. apply Hall. exact H3.
+  - left. apply Hall. exact H3.
+Qed.
+
+(* flush returned 0: nothing is pending on either side and the whole offered input went through the block compressor *)
+Theorem cstream_flush_complete P fc cs0 chunks k inp ocap :
+  SI P cs0 chunks k -> 1 <= fc_maxBlock fc ->
+  let o := kstep P fc k inp ocap DirFlush in
+  ko_ret o = Some 0 ->
+  k_inPend (ko_k o) = [] /\ k_outPend (ko_k o) = [] /\
+  (k_stage (ko_k o) = KLoad -> k_held (ko_k o) = [] /\ ko_consumed o = Z.of_N (lenN inp)).
+Proof.
+  intros S Hmb o Hret. pose proof (kstep_spec P fc cs0 chunks k inp ocap DirFlush S Hmb) as H.
+  cbv zeta in H. fold o in H. rewrite Hret in H.
+  destruct H as (cs1 & c1 & c2 & taken & rest & capleft & _ & S' & _ & Hsplit & Hcons & _ & _ & Hout & Hr & Hstop).
+  destruct Hstop as [H1 H2 H3|H1 H2 H3 H4|H1 H2 H3 H4|H1 H2 H3 H4 H5 H6|H1 H2 H3 H4]; try discriminate.
+  - destruct Hr as [Hr|(_ & Hd & _)]; [lia|discriminate].
+  - split; [exact H4|split; [exact H3|]]. intros E. congruence.
+  - split; [exact H4|split; [exact H6|]]. intros _. split; [exact H5|].
+    subst rest. rewrite app_nil_r in Hsplit. rewrite Hcons, <- Hsplit, lenN_app. lia.
+Qed.
+
+(* end returned 0: the frame is complete - the closing chunk (epilogue) went out and nothing is pending *)
+Theorem cstream_end_complete P fc cs0 chunks k inp ocap :
+  SI P cs0 chunks k -> 1 <= fc_maxBlock fc ->
+  let o := kstep P fc k inp ocap DirEnd in
+  ko_ret o = Some 0 ->
+  exists cs1 chunks2, SI P cs1 chunks2 (ko_k o) /\ complete chunks2 /\
+    k_stage (ko_k o) = KInit /\ k_frameEnded (ko_k o) = true /\ k_inPend (ko_k o) = [] /\ k_outPend (ko_k o) = [].
+Proof.
+  intros S Hmb o Hret. pose proof (kstep_spec P fc cs0 chunks k inp ocap DirEnd S Hmb) as H.
+  cbv zeta in H. fold o in H. rewrite Hret in H.
+  destruct H as (cs1 & c1 & c2 & taken & rest & capleft & _ & S' & _ & Hsplit & Hcons & _ & _ & Hout & Hr & Hstop).
+  destruct Hstop as [H1 H2 H3|H1 H2 H3 H4|H1 H2 H3 H4|H1 H2 H3 H4 H5 H6|H1 H2 H3 H4]; try discriminate.
+  - destruct Hr as [Hr|(_ & Hd & _)]; [lia|discriminate].
+  - exists cs1, c2. split; [exact S'|]. split; [apply (ki_ended _ _ _ _ (si_ki _ _ _ _ S') H2)|]. repeat split; assumption.
+Qed.
+
+(* an unfinished end call has filled the whole output buffer it was given *)
+Theorem cstream_end_fills_output P fc cs0 chunks k inp ocap r :
+  SI P cs0 chunks k -> 1 <= fc_maxBlock fc ->
+  let o := kstep P fc k inp ocap DirEnd in
+  ko_ret o = Some r -> r <> 0 -> lenN (ko_out o) = ocap.
+Proof.
+  intros S Hmb o Hret Hr0. pose proof (kstep_spec P fc cs0 chunks k inp ocap DirEnd S Hmb) as H.
+  cbv zeta in H. fold o in H. rewrite Hret in H.
+  destruct H as (cs1 & c1 & c2 & taken & rest & capleft & _ & S' & _ & Hsplit & Hcons & _ & _ & Hout & Hr & Hstop).
+  destruct Hstop as [H1 H2 H3|H1 H2 H3 H4|H1 H2 H3 H4|H1 H2 H3 H4 H5 H6|H1 H2 H3 H4]; try discriminate.
+  - lia.
+  - exfalso. apply Hr0. destruct Hr as [Hr|(_ & Hd & _)]; [|discriminate].
+    pose proof (ki_out _ _ _ _ (si_ki _ _ _ _ S')) as Ho. rewrite H3 in Ho. cbn in Ho. lia.
+Qed.
+
+(* ---------- C02: whole histories ---------- *)
+Notation krun := (krun CS cs_begin compress_chunk).
+
+Definition frames_in (dones : list (CS * list (bytes * bool))) : bytes := concat (map (fun f => chunks_in (snd f)) dones).
+Definition frames_out (dones : list (CS * list (bytes * bool))) : bytes := concat (map (fun f => outs (fst f) (snd f)) dones).
+Definition begun (f : CS * list (bytes * bool)) : Prop :=
+  snd f = [] \/ exists cs fc pl, fst f = cs_begin cs fc pl.
+Definition begun_now (k : kstate) (cs0 : CS) (chunks : list (bytes * bool)) : Prop :=
+  (k_stage k = KInit /\ chunks = []) \/ exists cs fc pl, cs0 = cs_begin cs fc pl.
+
+(* [dones] = the frames already completed, (cs0, chunks) = the frame in progress (or the last completed one until the
+   next frame is initialised) *)
+Record HInv (P : kparams) (X : bytes) (pos : N) (emitted : bytes) (k : kstate)
+            (dones : list (CS * list (bytes * bool))) (cs0 : CS) (chunks : list (bytes * bool)) : Prop := {
+  hi_si : SI P cs0 chunks k;
+  hi_in : tk pos X = frames_in dones ++ chunks_in chunks ++ k_inPend k ++ k_held k;
+  hi_pos : pos <= lenN X;
+  hi_out : frames_out dones ++ outs cs0 chunks = emitted ++ k_outPend k;
+  hi_done : forall f, In f dones -> (snd f = [] \/ complete (snd f)) /\ begun f;
+  hi_begun : begun_now k cs0 chunks }.
+
+Lemma frames_in_snoc dones f : frames_in (dones ++ [f]) = frames_in dones ++ chunks_in (snd f).
+Proof. unfold frames_in. rewrite map_app, concat_app. cbn. rewrite app_nil_r. reflexivity. Qed.
+Lemma frames_out_snoc dones f : frames_out (dones ++ [f]) = frames_out dones ++ outs (fst f) (snd f).
+Proof. unfold frames_out. rewrite map_app, concat_app. cbn. rewrite app_nil_r. reflexivity. Qed.
+
+Lemma HInv_new P X cs : HInv P X 0 [] (k_new cs) [] cs [].
+Proof.
+  constructor; try (cbn; reflexivity).
+  - apply SI_new.
+  - lia.
+  - intros f [].
+  - left. split; reflexivity.
+Qed.
+
+Lemma tk_prefix_of_app (a b : bytes) n : n = lenN a -> tk n (a ++ b) = a.
+Proof. intros ->. apply tk_app_exact. Qed.
+
+Lemma HInv_step P X pos emitted k dones cs0 chunks (c : kcall) r :
+  HInv P X pos emitted k dones cs0 chunks -> 1 <= fc_maxBlock (kc_fc c) ->
+  let o := kstep P (kc_fc c) k (tk (kc_n c) (dr pos X)) (kc_cap c) (kc_dir c) in
+  ko_ret o = Some r ->
+  exists dones' cs0' chunks',
+    HInv P X (Z.to_N (Z.of_N pos + ko_consumed o)) (emitted ++ ko_out o) (ko_k o) dones' cs0' chunks'.
+Proof.
+  intros [HS Hin Hpos Hout Hdone Hbeg] Hmb o Hret.
+  pose proof (kstep_spec P (kc_fc c) cs0 chunks k (tk (kc_n c) (dr pos X)) (kc_cap c) (kc_dir c) HS Hmb) as H.
+  cbv zeta in H. fold o in H. rewrite Hret in H.
+  destruct H as (cs1 & c1 & c2 & taken & rest & capleft & Hfr & S' & (more & Hmore & _) & Hsplit & Hcons & Hconv & (d & Hd & Hd') & _ & _ & _).
+  set (inp := tk (kc_n c) (dr pos X)) in *.
+  (* the bytes seen by this call are the next bytes of X *)
+  assert (HX : tk (pos + kc_n c) X = tk pos X ++ inp) by (unfold inp; rewrite tk_tk_dr; reflexivity).
+  set (A := frames_in dones ++ chunks_in chunks ++ k_inPend k).
+  assert (HA : tk pos X = A ++ k_held k) by (unfold A; rewrite Hin, <- !app_assoc; reflexivity).
+  assert (Hlen : pos = lenN A + lenN (k_held k)).
+  { apply (f_equal lenN) in HA. rewrite len_tk, lenN_app in HA. lia. }
+  assert (Hnew : Z.to_N (Z.of_N pos + ko_consumed o) = lenN A + lenN taken) by (rewrite Hcons; lia).
+  assert (Htk : tk (lenN A + lenN taken) X = A ++ taken).
+  { assert (E : tk (pos + kc_n c) X = (A ++ taken) ++ rest).
+    { rewrite HX, HA, <- !app_assoc. f_equal. exact Hsplit. }
+    assert (Hle : lenN A + lenN taken <= lenN (tk (pos + kc_n c) X)).
+    { rewrite E, !lenN_app. lia. }
+    transitivity (tk (lenN A + lenN taken) (tk (pos + kc_n c) X)).
+    - unfold tk. rewrite firstn_firstn. f_equal. rewrite len_tk in Hle. lia.
+    - rewrite E. apply tk_prefix_of_app. rewrite lenN_app. reflexivity. }
+  assert (Hpos' : lenN A + lenN taken <= lenN X).
+  { apply (f_equal lenN) in Htk. rewrite len_tk, lenN_app in Htk. lia. }
+  rewrite Hnew.
+  destruct Hfr as [(-> & -> & Hsame)|(Est & -> & pl & ->)].
+  - (* same frame *)
+    exists dones, cs0, c2. constructor; auto.
+    + rewrite Htk. unfold A. rewrite <- !app_assoc. do 1 f_equal.
+      rewrite app_assoc, app_assoc. rewrite <- (app_assoc (chunks_in chunks)). rewrite <- Hconv. rewrite <- !app_assoc. reflexivity.
+    + rewrite Hd, app_assoc, Hout, <- !app_assoc. f_equal. symmetry. exact Hd'.
+    + destruct Hbeg as [[Hb1 Hb2]|Hb]; [|right; exact Hb].
+      destruct (Hsame Hb1) as [E1 E2]. left. split; [exact E2|]. rewrite E1. exact Hb2.
+  - (* a new frame was initialised by this call *)
+    destruct HS as [K HS1 HS2 HS3].
+    pose proof (ki_init _ _ _ _ K Est) as [Hop Hip].
+    exists (dones ++ [(cs0, chunks)]), (cs_begin (k_cs k) (kc_fc c) pl), c2. constructor; auto.
+    + rewrite Htk, frames_in_snoc. unfold A. cbn [snd]. rewrite <- !app_assoc. do 2 f_equal.
+      rewrite Hip in *. cbn [app] in *. rewrite Hconv. reflexivity.
+    + rewrite frames_out_snoc. cbn [fst snd]. rewrite Hout, Hop, app_nil_r, Hd.
+      change (outs (cs_begin (k_cs k) (kc_fc c) pl) []) with (@nil N). cbn [app].
+      rewrite Hop in Hd'. cbn [app] in Hd'. rewrite <- app_assoc, Hd'. reflexivity.
+    + intros f Hf. apply in_app_or in Hf. destruct Hf as [Hf|[<-|[]]]; [apply Hdone; exact Hf|].
+      split; [|destruct Hbeg as [[_ Hb]|Hb]; [left; exact Hb|right; exact Hb]]. cbn [snd].
+      destruct (k_frameEnded k) eqn:Efe.
+      * right. apply (ki_ended _ _ _ _ K Efe).
+      * left. apply (ki_fresh _ _ _ _ K Est Efe).
+    + right. eexists _, _, _. reflexivity.
+Qed.
+
+
+Definition calls_ok (calls : list kcall) : Prop := Forall (fun c => 1 <= fc_maxBlock (kc_fc c)) calls.
+
+Lemma krun_inv P X : forall calls pos emitted k dones cs0 chunks k' pos' emitted',
+  HInv P X pos emitted k dones cs0 chunks -> calls_ok calls ->
+  krun P k X pos calls emitted = Some (k', pos', emitted') ->
+  exists dones' cs0' chunks', HInv P X pos' emitted' k' dones' cs0' chunks'.
+Proof.
+  induction calls as [|c t IH]; intros pos emitted k dones cs0 chunks k' pos' emitted' HI Hok Hrun.
+  - cbn in Hrun. inversion Hrun; subst. eauto.
+  - cbn [CStreamModel.krun] in Hrun. inversion Hok as [|c' t' Hc Ht]; subst.
+    destruct (ko_ret (kstep P (kc_fc c) k (tk (kc_n c) (dr pos X)) (kc_cap c) (kc_dir c))) as [r|] eqn:Er; [|discriminate].
+    destruct (HInv_step P X pos emitted k dones cs0 chunks c r HI Hc Er) as (d1 & c1 & ch1 & HI1).
+    eapply IH; eauto.
+Qed.
+
+(* C02 cstream_partition: after any history the bytes handed to the block compressor are, frame by frame and chunk by
+   chunk in order, exactly the input reported consumed (minus what is still buffered), and the bytes emitted are exactly
+   the concatenation of the chunk outputs (minus what is still in outBuff) *)
+Theorem cstream_partition P X cs calls k' pos' emitted' :
+  calls_ok calls ->
+  krun P (k_new cs) X 0 calls [] = Some (k', pos', emitted') ->
+  exists frames : list (CS * list (bytes * bool)),
+    tk pos' X = frames_in frames ++ k_inPend k' ++ k_held k' /\
+    frames_out frames = emitted' ++ k_outPend k' /\
+    (forall f, In f frames -> begun f) /\
+    (forall pre f post, frames = pre ++ f :: post -> post <> [] -> snd f = [] \/ complete (snd f)).
+Proof.
+  intros Hok Hrun.
+  destruct (krun_inv P X calls 0 [] (k_new cs) [] cs [] k' pos' emitted' (HInv_new P X cs) Hok Hrun) as (dones & cs0 & chunks & HI).
+  destruct HI as [HS Hin Hpos Hout Hdone Hbeg].
+  exists (dones ++ [(cs0, chunks)]). split; [|split; [|split]].
+  - rewrite frames_in_snoc. cbn [snd]. rewrite <- app_assoc. exact Hin.
+  - rewrite frames_out_snoc. cbn [fst snd]. exact Hout.
+  - intros f Hf. apply in_app_or in Hf. destruct Hf as [Hf|[<-|[]]]; [apply Hdone; exact Hf|].
+    destruct Hbeg as [[_ Hb]|Hb]; [left; exact Hb|right; exact Hb].
+  - intros pre f post E Hpost. apply Hdone.
+    assert (Hin' : In f (removelast (dones ++ [(cs0, chunks)]))).
+    { rewrite E. rewrite removelast_app by discriminate. apply in_or_app. right.
+      destruct post; [congruence|]. left. reflexivity. }
+    rewrite removelast_last in Hin'. exact Hin'.
+Qed.
 
 End CProofs.
